@@ -988,4 +988,202 @@ Proof.
     + apply (in_map (fun r => Qpow (absdiff p1 p2 r) 1)). exact Hk0.
 Qed.
 
+(* ---------- L4: reordering, condensing, rescaling ---------- *)
+
+Lemma rwt_ite : forall r bs,
+  rwt r bs == qsum (map (fun b => if req r (rke b) then wt b else 0) bs).
+Proof. intros r bs. unfold MetricSpec.rwt. apply qsum_filter_as_ite. Qed.
+
+Lemma rwt_perm : forall r bs bs', Permutation bs bs' -> rwt r bs == rwt r bs'.
+Proof.
+  intros r bs bs' H. rewrite !rwt_ite. apply qsum_perm. apply Permutation_map. exact H.
+Qed.
+
+Lemma total_wt_perm : forall bs bs', Permutation bs bs' -> total_wt bs == total_wt bs'.
+Proof. intros bs bs' H. unfold Core.total_wt. apply qsum_perm. apply Permutation_map. exact H. Qed.
+
+Lemma ndist_perm : forall p p' r, Permutation (ballots p) (ballots p') -> ndist p' r == ndist p r.
+Proof.
+  intros p p' r H. unfold MetricSpec.ndist.
+  rewrite (rwt_perm r _ _ H), (total_wt_perm _ _ H). reflexivity.
+Qed.
+
+Definition rke' (r : ranking) : ranking := match r with [] => [[]] | _ => r end.
+
+Lemma rke_rke' : forall b : ballot, rke b = rke' (rk b).
+Proof. intros b. unfold Metrics.rk_or_empty, rke'. destruct (rk b); reflexivity. Qed.
+
+Lemma rke'_compat : forall r1 r2, req r1 r2 = true -> req (rke' r1) (rke' r2) = true.
+Proof.
+  intros [|s1 r1] [|s2 r2] H; cbn [rke']; try exact H; try discriminate.
+Qed.
+
+Lemma rwt_condense : forall r bs, rwt r (condense_bs cand ceqb bs) == rwt r bs.
+Proof.
+  intros r bs.
+  pose proof (condense_bs_wsum cand ceqb (fun _ _ => True)
+                (fun rr _ => if req r (rke' rr) then 1 else 0)) as H.
+  unfold wsum in H.
+  assert (Hm : forall l : list ballot,
+            rwt r l == qsum (map (fun b => wt b * (if req r (rke' (rk b)) then 1 else 0)) l)).
+  { intros l. rewrite rwt_ite. apply qsum_map_ext_in. intros b _. rewrite rke_rke'.
+    destruct (req r (rke' (rk b))); ring. }
+  rewrite !Hm. apply H.
+  - intros k b _ _ Hk. unfold Core.key_match in Hk. apply andb_true_iff in Hk. destruct Hk as [Hk _].
+    rewrite (ranking_eqb_compat_r cand ceqb ceqb_spec r _ _ (rke'_compat _ _ Hk)). reflexivity.
+  - apply Forall_forall. intros x _. exact I.
+Qed.
+
+Lemma ndist_condense : forall p p' r,
+  ballots p' = condense_bs cand ceqb (ballots p) -> ndist p' r == ndist p r.
+Proof.
+  intros p p' r H. unfold MetricSpec.ndist. rewrite H, rwt_condense, condense_bs_total_wt.
+  reflexivity.
+Qed.
+
+Lemma rwt_rescaled : forall c r bs bs', rescaled cand c bs bs' -> rwt r bs' == c * rwt r bs.
+Proof.
+  intros c r bs bs' H. rewrite !rwt_ite. induction H as [|b b' bs bs' [Hrk Hwt] _ IH]; cbn [map].
+  - rewrite qsum_nil. ring.
+  - rewrite !qsum_cons, IH. rewrite !rke_rke', Hrk.
+    destruct (req r (rke' (rk b))); rewrite ?Hwt; ring.
+Qed.
+
+Lemma total_wt_rescaled : forall c bs bs', rescaled cand c bs bs' -> total_wt bs' == c * total_wt bs.
+Proof.
+  intros c bs bs' H. unfold Core.total_wt. induction H as [|b b' bs bs' [Hrk Hwt] _ IH]; cbn [map].
+  - rewrite qsum_nil. ring.
+  - rewrite !qsum_cons, IH, Hwt. ring.
+Qed.
+
+Lemma ndist_rescaled : forall c p p' r, 0 < c -> 0 < total_wt (ballots p) ->
+  rescaled cand c (ballots p) (ballots p') -> ndist p' r == ndist p r.
+Proof.
+  intros c p p' r Hc Ht H. unfold MetricSpec.ndist.
+  rewrite (rwt_rescaled c r _ _ H), (total_wt_rescaled c _ _ H).
+  field. split; intros Hz; [rewrite Hz in Ht|rewrite Hz in Hc]; apply (Qlt_irrefl 0); assumption.
+Qed.
+
+Lemma lp_sum_ext_l : forall p p' q n s s', (forall r, ndist p' r == ndist p r) ->
+  lp_sum p q n = inl s -> lp_sum p' q n = inl s' -> s' == s.
+Proof.
+  intros p p' q n s s' H Hs Hs'.
+  destruct (common_keys [p; p'; q]) as [K [Hd Hc]].
+  assert (Hp : covers K p) by (apply Hc; cbn; auto).
+  assert (Hp' : covers K p') by (apply Hc; cbn; auto).
+  assert (Hq : covers K q) by (apply Hc; cbn; auto).
+  rewrite (lp_sum_any_keys p q n s Hs K Hd Hp Hq), (lp_sum_any_keys p' q n s' Hs' K Hd Hp' Hq).
+  apply psum_ext_l. exact H.
+Qed.
+
+Lemma linf_ext_l : forall p p' q m m', (forall r, ndist p' r == ndist p r) ->
+  linf p q = inl m -> linf p' q = inl m' -> m' == m.
+Proof.
+  intros p p' q m m' H Hm Hm'.
+  destruct (common_keys [p; p'; q]) as [K [Hd Hc]].
+  assert (Hp : covers K p) by (apply Hc; cbn; auto).
+  assert (Hp' : covers K p') by (apply Hc; cbn; auto).
+  assert (Hq : covers K q) by (apply Hc; cbn; auto).
+  destruct (linf_def p q m Hm) as [_ Hmax]. destruct (linf_def p' q m' Hm') as [_ Hmax'].
+  apply (is_max_ext ranking (absdiff p' q) (absdiff p q) K).
+  - intros r. apply absdiff_ext_l. apply H.
+  - apply Hmax'; assumption.
+  - apply Hmax; assumption.
+Qed.
+
+Theorem same_distribution_same_distance : forall p p' q n,
+  (forall r, ndist p' r == ndist p r) ->
+  0 < total_wt (ballots p) -> 0 < total_wt (ballots p') -> 0 < total_wt (ballots q) ->
+  (1 <= n)%nat ->
+  (exists s s', lp_sum p q n = inl s /\ lp_sum p' q n = inl s' /\ s' == s) /\
+  (exists m m', linf p q = inl m /\ linf p' q = inl m' /\ m' == m).
+Proof.
+  intros p p' q n H Hp Hp' Hq Hn.
+  pose proof (pos_not_degenerate p Hp) as Dp. pose proof (pos_not_degenerate p' Hp') as Dp'.
+  pose proof (pos_not_degenerate q Hq) as Dq.
+  split.
+  - destruct (lp_sum_ok p q n Dp Dq Hn) as [s Hs]. destruct (lp_sum_ok p' q n Dp' Dq Hn) as [s' Hs'].
+    exists s, s'. split; [exact Hs|]. split; [exact Hs'|]. apply (lp_sum_ext_l p p' q n); assumption.
+  - assert (Hne : ballots q <> []).
+    { destruct (pos_has_ballot q Hq) as [b Hb]. intros E. rewrite E in Hb. destruct Hb. }
+    destruct (linf_ok p q Dp Dq (or_intror Hne)) as [m Hm].
+    destruct (linf_ok p' q Dp' Dq (or_intror Hne)) as [m' Hm'].
+    exists m, m'. split; [exact Hm|]. split; [exact Hm'|]. apply (linf_ext_l p p' q); assumption.
+Qed.
+
+Theorem invariant_reorder_condense_rescale : forall p p' q n,
+  (Permutation (ballots p) (ballots p') \/
+   ballots p' = condense_bs cand ceqb (ballots p) \/
+   exists c, 0 < c /\ rescaled cand c (ballots p) (ballots p')) ->
+  0 < total_wt (ballots p) -> 0 < total_wt (ballots q) -> (1 <= n)%nat ->
+  (forall r, ndist p' r == ndist p r) /\
+  0 < total_wt (ballots p') /\
+  (exists s s', lp_sum p q n = inl s /\ lp_sum p' q n = inl s' /\ s' == s) /\
+  (exists m m', linf p q = inl m /\ linf p' q = inl m' /\ m' == m).
+Proof.
+  intros p p' q n H Hp Hq Hn.
+  assert (Hboth : (forall r, ndist p' r == ndist p r) /\ 0 < total_wt (ballots p')).
+  { destruct H as [H|[H|[c [Hc H]]]].
+    - split; [intros r; apply ndist_perm; exact H|]. rewrite <- (total_wt_perm _ _ H). exact Hp.
+    - split; [intros r; apply ndist_condense; exact H|]. rewrite H, condense_bs_total_wt. exact Hp.
+    - split; [intros r; apply (ndist_rescaled c); assumption|].
+      rewrite (total_wt_rescaled c _ _ H). apply Qmult_lt_0_compat; assumption. }
+  destruct Hboth as [Hnd Hp']. split; [exact Hnd|]. split; [exact Hp'|].
+  apply same_distribution_same_distance; assumption.
+Qed.
+
+(* ---------- L5: triangle inequality, p = 1 and p = inf ---------- *)
+
+Theorem triangle_p1 : forall p1 p2 p3,
+  0 < total_wt (ballots p1) -> 0 < total_wt (ballots p2) -> 0 < total_wt (ballots p3) ->
+  exists s13 s12 s23,
+    lp_sum p1 p3 1 = inl s13 /\ lp_sum p1 p2 1 = inl s12 /\ lp_sum p2 p3 1 = inl s23 /\
+    s13 <= s12 + s23.
+Proof.
+  intros p1 p2 p3 H1 H2 H3.
+  pose proof (pos_not_degenerate p1 H1) as D1. pose proof (pos_not_degenerate p2 H2) as D2.
+  pose proof (pos_not_degenerate p3 H3) as D3.
+  destruct (lp_sum_ok p1 p3 1 D1 D3 (le_n 1)) as [s13 E13].
+  destruct (lp_sum_ok p1 p2 1 D1 D2 (le_n 1)) as [s12 E12].
+  destruct (lp_sum_ok p2 p3 1 D2 D3 (le_n 1)) as [s23 E23].
+  exists s13, s12, s23. repeat (split; [assumption|]).
+  destruct (common_keys [p1; p2; p3]) as [K [Hd Hc]].
+  assert (C1 : covers K p1) by (apply Hc; cbn; auto).
+  assert (C2 : covers K p2) by (apply Hc; cbn; auto).
+  assert (C3 : covers K p3) by (apply Hc; cbn; auto).
+  rewrite (lp_sum_any_keys p1 p3 1 s13 E13 K Hd C1 C3), (lp_sum_any_keys p1 p2 1 s12 E12 K Hd C1 C2),
+          (lp_sum_any_keys p2 p3 1 s23 E23 K Hd C2 C3).
+  unfold psum. rewrite <- qsum_map_plus. apply qsum_le. intros r _. rewrite !Qpow_1.
+  apply absdiff_triangle.
+Qed.
+
+Theorem triangle_inf : forall p1 p2 p3,
+  0 < total_wt (ballots p1) -> 0 < total_wt (ballots p2) -> 0 < total_wt (ballots p3) ->
+  exists m13 m12 m23,
+    linf p1 p3 = inl m13 /\ linf p1 p2 = inl m12 /\ linf p2 p3 = inl m23 /\
+    m13 <= m12 + m23.
+Proof.
+  intros p1 p2 p3 H1 H2 H3.
+  pose proof (pos_not_degenerate p1 H1) as D1. pose proof (pos_not_degenerate p2 H2) as D2.
+  pose proof (pos_not_degenerate p3 H3) as D3.
+  assert (N1 : ballots p1 <> []).
+  { destruct (pos_has_ballot p1 H1) as [b Hb]. intros E. rewrite E in Hb. destruct Hb. }
+  assert (N2 : ballots p2 <> []).
+  { destruct (pos_has_ballot p2 H2) as [b Hb]. intros E. rewrite E in Hb. destruct Hb. }
+  destruct (linf_ok p1 p3 D1 D3 (or_introl N1)) as [m13 E13].
+  destruct (linf_ok p1 p2 D1 D2 (or_introl N1)) as [m12 E12].
+  destruct (linf_ok p2 p3 D2 D3 (or_introl N2)) as [m23 E23].
+  exists m13, m12, m23. repeat (split; [assumption|]).
+  destruct (common_keys [p1; p2; p3]) as [K [Hd Hc]].
+  assert (C1 : covers K p1) by (apply Hc; cbn; auto).
+  assert (C2 : covers K p2) by (apply Hc; cbn; auto).
+  assert (C3 : covers K p3) by (apply Hc; cbn; auto).
+  destruct (linf_def p1 p3 m13 E13) as [_ M13]. destruct (M13 K C1 C3) as [[x [Hx Hmx]] _].
+  destruct (linf_def p1 p2 m12 E12) as [_ M12]. destruct (M12 K C1 C2) as [_ U12].
+  destruct (linf_def p2 p3 m23 E23) as [_ M23]. destruct (M23 K C2 C3) as [_ U23].
+  apply in_map_iff in Hx. destruct Hx as [k [<- Hk]]. rewrite Hmx.
+  eapply Qle_trans; [apply (absdiff_triangle p1 p2 p3 k)|].
+  apply Qplus_le_compat; [apply U12|apply U23]; apply in_map; exact Hk.
+Qed.
+
 End WithCand.
